@@ -66,7 +66,7 @@ func run(c *vk.Ctx) {
 		defer s.Close()
 		servers = append(servers, cachedSrv{x.n, s, oc, cfg.V2})
 	}
-	sem.RunCases(c, base, "mem", c.Pick(200, 1500), gen.Options{}, 3, 8, func(i int, r *rand.Rand, p *sem.Prepared, contextual []*openfgav1.TupleKey) {
+	sem.RunCases(c, base, "mem", c.Pick(200, 1500), gen.Options{HierarchyEvery: 3, AlgebraEvery: 5}, 3, 8, func(i int, r *rand.Rand, p *sem.Prepared, contextual []*openfgav1.TupleKey) {
 		oneCase(c, i, r, p, contextual, base, servers)
 	})
 	hits := int64(0)
